@@ -19,6 +19,7 @@ INVARIANT CacheSound
 INVARIANT NeverUnverified
 INVARIANT OfflineWhenCached
 INVARIANT ServedWhenCached
+INVARIANT NeverDownloadsWhenToldNotTo
 INVARIANT RetryBound
 INVARIANT ErrorClassOK
 INVARIANT NoCrossTalk
